@@ -2,4 +2,5 @@ import ESV.Gen.Tables
 import ESV.Base.Dec
 import ESV.Base.Dict
 import ESV.SourceMap.Model
+import ESV.Lit.Model
 import ESV.Props.C14
